@@ -148,6 +148,12 @@ def gen_case(rng, tier, name=None, cplx=None):
     cplx = (e['cplx'] and rng.random() < 0.25) if cplx is None else (bool(cplx) and e['cplx'])
     sparse = rng.choice([0.0, 0.0, 0.3, 0.7, 1.0])
     x = rand_coeffs(rng, (D, P) + shape, -1.0, 1.0, sparse=sparse, cplx=cplx)
+    if D >= 3 and rng.random() < 0.2:
+        # structured sparsity: whole coefficient orders vanish (x(t) = x0 + x2 t^2 + ..., even/odd series) while others do not
+        pat = rng.choice(['first', 'odd', 'even', 'random'])
+        for d in range(1, D):
+            if (pat == 'first' and d == 1) or (pat == 'odd' and d % 2 == 1) or (pat == 'even' and d % 2 == 0) or (pat == 'random' and rng.random() < 0.5):
+                x[d] = 0
     x[0] = gen_x0(rng, e['dom'], (P,) + shape, cplx)
     case = {'fn': name, 'D': D, 'P': P, 'shape': list(shape), 'cplx': cplx, 'x': x}
     if e['prm']:
@@ -321,6 +327,20 @@ def run(ctx):
             res = run_case(ctx, case) or oracle_fails(case)
             if res:
                 ctx.report(case, 'failure', res)
+    # the first-order coefficient vanishes identically while higher ones do not: x(t) = x0 + x2 t^2 + ...
+    for name in sorted(TABLE):
+        case = gen_case(ctx.rng, ctx.tier, name, False)
+        while case['D'] < 3:
+            case = gen_case(ctx.rng, ctx.tier, name, False)
+        x = np.array(case['x'])
+        x[1] = 0
+        x[2] = rand_coeffs(ctx.rng, x[2].shape, 0.25, 1.0)
+        case['x'] = x
+        ctx.evaluations += 1
+        ctx.count('zero-first-order')
+        res = run_case(ctx, case) or oracle_fails(case)
+        if res:
+            ctx.report(case, 'failure', res)
     # numpy.<f>(UTPM) entry point (ufunc method dispatch): element-wise object array
     for name in ['exp', 'sin', 'cos', 'sqrt', 'log', 'tanh', 'arctan']:
         case = gen_case(ctx.rng, ctx.tier, name)
